@@ -6,7 +6,10 @@ package lib
 // functions double as replay drivers (a failed verifAssert panics with its label;
 // a failed verifAssume / verifRequires skips the case).
 
-import "bytes"
+import (
+	"bytes"
+	"unsafe"
+)
 
 type verifSkip struct{}
 
@@ -18,13 +21,28 @@ func verifSameSlice(a, b []byte) bool {
 	return len(a) == len(b) && (len(a) == 0 || &a[0] == &b[0])
 }
 
+// verifDisjoint: the two slices share no memory (different backing arrays, or one of
+// them has no storage at all).
+func verifDisjoint(a, b []byte) bool {
+	if cap(a) == 0 || cap(b) == 0 {
+		return true
+	}
+	a0 := uintptr(unsafe.Pointer(unsafe.SliceData(a)))
+	b0 := uintptr(unsafe.Pointer(unsafe.SliceData(b)))
+	return a0+uintptr(cap(a)) <= b0 || b0+uintptr(cap(b)) <= a0
+}
+
 // verifFresh: the slice's backing array was allocated during the call under
 // verification (always true at run time; ownership is a static obligation).
 func verifFresh(a []byte) bool { return true }
 
+// verifFailures collects the labels of assertions that failed in this run (a replay
+// reports all of them; execution continues so that later labels are reached too).
+var verifFailures []string
+
 func verifAssert(c bool, label string) {
 	if !c {
-		panic("verifAssert: " + label)
+		verifFailures = append(verifFailures, label)
 	}
 }
 
@@ -42,7 +60,7 @@ func verifRequires(c bool) {
 
 func verifEnsures(c bool, label string) {
 	if !c {
-		panic("verifEnsures: " + label)
+		verifFailures = append(verifFailures, label)
 	}
 }
 
